@@ -62,7 +62,7 @@ func (g *gen) variant(c *wc.Case) {
 	}
 	switch k := r.Intn(48); {
 	case k < 4: // 1/12
-		c.NRD = 1
+		c.NRD = 1 + r.Intn(2) // 2: fsys.ReadDir answers an empty directory with a nil slice (fix b9020f82: dirIterator.next tested files != nil)
 		for _, rt := range c.Roots {
 			for d, ks := range rt.F.Read {
 				for i := range ks {
@@ -90,9 +90,12 @@ func (g *gen) variant(c *wc.Case) {
 			if len(c.Roots) == 1 && r.Intn(2) == 0 { // a requested path under no root (requested paths need a single root)
 				c.OUT = 2
 			}
+			if r.Intn(3) == 0 { // a skipped directory in a SIBLING whose name extends the root's name (fix 855a2c28: string prefix instead of path prefix)
+				c.OUT = 3
+			}
 		}
 	case k == 15 || k == 16:
-		c.NS = 1
+		c.NS = 1 + r.Intn(2) // 2: the entry point filesystem.Run itself, Stats nil (fix 8db9e7fe: Run dereferenced the nil collector)
 	case k < 15: // 4/48
 		if g.mode == "plain" && noFaults && len(c.Roots) == 1 {
 			c.REAL, c.ABS = true, false
